@@ -23,10 +23,19 @@ _prefix = st.sampled_from(["", "", "", "Packages/g/", "/abs/dir/", "a-b/c.d/", "
 def nevra_text(d):
     if "invalid" in d:
         return d["invalid"]
-    s = d.get("prefix", "") + d["name"] + "-"
+    name, release, arch = d["name"], d["release"], d["arch"]
+    if d["epoch"] is None and d.get("colon"):
+        # a name without epoch that carries a colon somewhere else in the file name: still a name without epoch
+        if d["colon"] == "name":
+            name = name[:1] + ":" + name[1:]
+        elif d["colon"] == "release":
+            release = release[:1] + ":" + release[1:]
+        else:
+            arch = arch[:3] + ":" + arch[3:]
+    s = d.get("prefix", "") + name + "-"
     if d["epoch"] is not None:
         s += "0" * d.get("pad", 0) + "%s:" % d["epoch"]          # "01:" and "1:" are the same epoch
-    s += "%s-%s.%s" % (d["version"], d["release"], d["arch"])
+    s += "%s-%s.%s" % (d["version"], release, arch)
     if d.get("rpm"):
         s += ".rpm"
     return s
@@ -81,7 +90,7 @@ def rpm_op(draw, families, allow_breaks=True):
         elif brk == "empty-path":
             op["path"] = ""
         elif brk == "no-epoch":
-            op["nevra"] = dict(nevra, epoch=None)
+            op["nevra"] = dict(nevra, epoch=None, colon=draw(st.sampled_from([None, None, "name", "release", "arch"])))
         elif brk == "unparsable":
             op["nevra"] = {"invalid": draw(st.sampled_from(INVALID_NEVRAS))}
         elif brk == "srpm-missing":
@@ -103,7 +112,7 @@ def rpm_op(draw, families, allow_breaks=True):
             if kind == "source":
                 op["break"] = None
             else:
-                op["srpm"] = dict(srpm, epoch=None)
+                op["srpm"] = dict(srpm, epoch=None, colon=draw(st.sampled_from([None, None, "name", "release", "arch"])))
         elif brk == "category-arch":
             if kind == "source":
                 op["nevra"] = dict(nevra, arch="x86_64")          # 'source' category for a binary package
